@@ -3,7 +3,7 @@ From Coq Require Import QArith List Bool PArith Arith Lia.
 From PV Require Import Base.PyData Base.Expr Base.Stmts C02.Model C02.CondPrint C02.ProofsLcs C02.ProofsLcsOpt
   C02.ProofsPrint C02.ProofsPrint2 C02.ProofsCond C02.Remap C02.ProofsRemap C02.PrintSeq C02.ProofsPrintSeq
   C02.IndexDiff C02.ProofsIndexDiff C02.KeepText C02.ProofsKeepText C02.Read C02.ProofsRead
-  C02.ProofsReadE C02.ProofsReadC C02.ProofsReadS C02.KRename C02.ProofsKRename.
+  C02.ProofsReadE C02.ProofsReadC C02.ProofsReadS C02.KRename C02.ProofsKRename C02.ScaleTrack C02.ProofsScaleTrack.
 
 (* ---------------- lcs.diff (used by CodeRecord.update_statements) ---------------------------- *)
 (* Applying the edit script computed for (old, new) to old gives new — for all lists over any type
@@ -233,3 +233,17 @@ Theorem k_rename_consistent :
   forall (n : nat) (remap : list (nat * nat)) (ncs : nat) (flow : nat -> nat -> bool) (k : kkey) (v : kval),
     klookup (k_rename_loop n remap ncs flow) k = Some v -> entry_ok remap ncs flow k v = true.
 Proof. intros n remap ncs flow k v. apply k_rename_loop_ok. Qed.
+
+(* ---------------- the scale parameter through a history of renumberings -------------------------- *)
+(* update_ode_system renames S<old> -> S<new> with the remap from the STORED compartment map to the new one and
+   then stores the new map (update_model_record on the ADVAN path, to_des on the $DES path).  With that refresh,
+   for EVERY history of compartmental systems (any length; names pairwise different, the central compartment
+   present, OUTPUT not a compartment name) the index of the scale parameter equals the number of the central
+   compartment after the last update, and the stored map is the map of the last system. *)
+Theorem scale_follows_central :
+  forall (out central : id) (hist : list (list id)) (cur : list id) (k : nat),
+    names_ok out central cur = true -> forallb (names_ok out central) hist = true ->
+    number_of cur central = Some k ->
+    exists k', scale_run true out (new_compartmental_map cur, k) hist =
+               (new_compartmental_map (last hist cur), k') /\ number_of (last hist cur) central = Some k'.
+Proof. exact run_follows. Qed.
